@@ -278,6 +278,50 @@ def Member.methodFull (spec : List Tok) (segs : List PQSeg) (cst vol : Bool) (op
     exact ⟨w7, [ev], ⟨⟨[w7], .one hi7, rfl⟩, by rw [hb]; exact .refl _, ⟨_, hst7, ⟨rfl, rfl, rfl, rfl⟩, hacc⟩, hev7, hmu7⟩,
       ev, d, m', hm', rfl, hk7, hid7, hpar7⟩
 
+/-- a member function DEFINITION `S ptr-ops f(P₁, …, Pₙ) quals { body }` in a class body: ANY bracket-balanced body, skipped exactly -/
+def Member.methodDef (spec : List Tok) (segs : List PQSeg) (cst vol : Bool) (ops : List Tok) (x op : Tok) (ps : List (PItemG × Tok))
+    (last : PItemG) (cp : Tok) (quals : List Tok) (ob : Tok) (content : List Tok) (cb : Tok) (d1 : DType) : Member env (F + 1) (core (F + 1) (D + 1 + 1 + 1 + 1)) where
+  At := fun b b' =>
+    ((TypeSpecR env (F + 1) (D + 1 + 1) spec segs cst vol ∧ (∃ f r, spec = f :: r ∧ specFirst f.type = true) ∧
+      opsHeadOk ops = true ∧ (∀ o ∈ ops, o.value ≠ "auto") ∧
+      applyPtrOps (.type (.mk segs none false) cst vol) (ops.map (·.type)) = some d1 ∧
+      x.type = "NAME" ∧ identVal x.value = true ∧ ops.length + 2 ≤ F + 1) ∧ op.type = "(" ∧
+      (∀ q ∈ ps, q.1.OK env (F + 1) D ∧ q.2.type = "," ∧ q.2.value ≠ ")") ∧
+      last.OK env (F + 1) D ∧ cp.type = ")" ∧ cp.value = ")" ∧ ps.length + 1 ≤ F + 1 ∧
+      ob.value = "{" ∧ Balanced "{" "}" content ∧ cb.type = "}" ∧ quals.length + content.length + 2 ≤ F ∧
+      (∀ d acc, ∃ m', applyQuals { plainFunction x d1 d with parameters := ps.map (fun q => q.1.param) ++ [last.param], isMethod := true, access := some acc } (quals.map (·.value)) = some m')) ∧
+    Yields env.cfg b (spec ++ (ops ++ (x :: op ::
+      (plistToks ps last cp ++ (quals ++ (ob :: (content ++ [cb]))))))) b'
+  Ev := fun blk rest acc evs => ∃ ev d m',
+    applyQuals { plainFunction x d1 d with parameters := ps.map (fun q => q.1.param) ++ [last.param], isMethod := true, access := some acc } (quals.map (·.value)) = some m' ∧
+    evs = [ev] ∧ ItemEvent blk rest ev (.classMethod { m' with hasBody := true })
+  accOut := id
+  size := 1
+  at_sigEq := by
+    intro b b' k ⟨hok, hy⟩ hs
+    obtain ⟨k', hy', hs'⟩ := hy.sigEq hs
+    exact ⟨k', ⟨hok, hy'⟩, hs'⟩
+  sound := by
+    intro w b' blk rest acc hst hk hacc hmu ⟨⟨⟨hspec, ⟨f, r, hfr, hfirst⟩, h4, h5, h6, h7, h8, h9⟩, ho, hps, hl, hc, hcv, hFp, hob, hbal, hcb, hFq, hq⟩, hy⟩
+    rw [hfr] at hy
+    obtain ⟨b1, t0, hy⟩ := Yields.cons_inv hy
+    obtain ⟨b0, hy0, hy⟩ := hy.split
+    obtain ⟨bmid, hy1, hy⟩ := hy.split
+    obtain ⟨bx, t1, hy⟩ := hy.cons_inv
+    obtain ⟨bo, t2, hy⟩ := hy.cons_inv
+    obtain ⟨bc, hyp, hy⟩ := hy.split
+    obtain ⟨bq, hyq, hy⟩ := hy.split
+    obtain ⟨bb, t3, hy⟩ := hy.cons_inv
+    obtain ⟨d, bD, hd⟩ := getDoxygen_ok env.cfg hp env.mcRe w.buf (some f) b1 t0
+    obtain ⟨m', hm'⟩ := hq d acc
+    obtain ⟨w7, ct, ev, hi7, hb, _, hst7, hev7, hk7, hid7, hpar7, _, _, hmu7, _⟩ :=
+      toplevel_method_body_gen env hp F D w spec f r segs cst vol ops x op (ps.map (fun q => q.1.param) ++ [last.param]) ob content cb quals m' d1
+        b1 b0 bmid bx bo bc bq bb b' blk rest hst hk hmu (by rw [hnf]; simp) hspec hfr hfirst t0 hy0 h4 h5 hy1 h6 t1 h7 h8 t2 ho
+        (fun W hW => parseParameters_gen env (F + 1) D ps last cp W bc hps hl hc hcv (by rw [hW]; exact hyp) hFp)
+        hyq t3 hob hbal hcb hy hFq h9 d bD hd (by rw [hacc]; exact hm')
+    exact ⟨w7, [ev], ⟨⟨[w7], .one hi7, rfl⟩, by rw [hb]; exact .refl _, ⟨_, hst7, ⟨rfl, rfl, rfl, rfl⟩, hacc⟩, hev7, hmu7⟩,
+      ev, d, m', hm', rfl, hk7, hid7, hpar7⟩
+
 /-- `S ptr-ops f(P₁, …, Pₙ);` at namespace scope: ANY return-type specifier, and n ≥ 1 parameters each of the form
     `Sᵢ prefixᵢ nameᵢ` over ANY type specifier and ANY declarator prefix -/
 def Item.functionFull (spec : List Tok) (segs : List PQSeg) (cst vol : Bool) (ops : List Tok) (x op : Tok) (ps : List (PItemG × Tok))
